@@ -771,7 +771,23 @@ func (c *FnCtx) mergeSV(g Term, a, b SV) SV {
 	switch x := a.(type) {
 	case Sc:
 		if y, ok := b.(Sc); ok {
-			return Sc{c.mergeTerm(g, x.T, y.T)}
+			m := c.mergeTerm(g, x.T, y.T)
+			if c.extPtrs != nil {
+				wx, okx := c.extPtrs[x.T.S]
+				wy, oky := c.extPtrs[y.T.S]
+				if okx || oky {
+					// a value that may be a dependency's (pointer, error) result stays one after
+					// a join, on the side it came from
+					if !okx {
+						wx = TFalse
+					}
+					if !oky {
+						wy = TFalse
+					}
+					c.extPtrs[m.S] = Or(And(g, wx), And(Not(g), wy))
+				}
+			}
+			return Sc{m}
 		}
 	case Sl:
 		if y, ok := b.(Sl); ok {
